@@ -230,4 +230,278 @@ theorem preprocess_none_iff (count : Int) (ls : List Layer) :
         exact ⟨this.1.symm, this.2.symm⟩
       · exact (hall x (Or.inr hx)).2 hm
 
+/-! ## Marshal = VlaSpec.encode on valid allocations
+
+### the slot table enumerates a sorted layer list in its own order -/
+
+theorem filterMap_congr' {α β : Type} {f g : α → Option β} :
+    ∀ {l : List α}, (∀ x ∈ l, f x = g x) → l.filterMap f = l.filterMap g := by
+  intro l
+  induction l with
+  | nil => intro _; rfl
+  | cons a l ih =>
+    intro h
+    simp only [List.filterMap_cons, h a (by simp)]
+    rw [ih (fun x hx => h x (by simp [hx]))]
+
+theorem find?_eq_none_of {α : Type} {p : α → Bool} {l : List α} (h : ∀ x ∈ l, p x = false) :
+    l.find? p = none := by
+  simp only [List.find?_eq_none]
+  intro x hx; simp [h x hx]
+
+theorem filterMap_find_sorted {α : Type} (key : α → Nat) (P : Nat → α → Bool) :
+    ∀ (L : List α) (a n : Nat), L.Pairwise (fun x y => key x < key y) →
+      (∀ x ∈ L, a ≤ key x ∧ key x < a + n) →
+      (∀ x ∈ L, ∀ i, P i x = true ↔ key x = i) →
+      (List.range' a n).filterMap (fun i => L.find? (P i)) = L := by
+  intro L
+  induction L with
+  | nil => intro a n _ _ _; simp
+  | cons x xs ih =>
+    intro a n hp hr hP
+    have hx := hr x (by simp)
+    obtain ⟨hpx, hpxs⟩ := List.pairwise_cons.mp hp
+    have hsplit : List.range' a n =
+        List.range' a (key x - a) ++ key x :: List.range' (key x + 1) (a + n - (key x + 1)) := by
+      have e1 : n = (key x - a) + ((a + n - (key x + 1)) + 1) := by omega
+      conv => lhs; rw [e1]
+      rw [← List.range'_append_1]
+      congr 1
+      have : a + (key x - a) = key x := by omega
+      rw [this, List.range'_succ]
+    have hPf : ∀ y ∈ x :: xs, ∀ i, key y ≠ i → P i y = false := by
+      intro y hy i hne
+      cases h : P i y with
+      | false => rfl
+      | true => exact absurd ((hP y hy i).mp h) hne
+    rw [hsplit, List.filterMap_append, List.filterMap_cons]
+    have h1 : (List.range' a (key x - a)).filterMap (fun i => (x :: xs).find? (P i)) = [] := by
+      rw [List.filterMap_eq_nil_iff]
+      intro i hi
+      have hi' := List.mem_range'_1.mp hi
+      apply find?_eq_none_of
+      intro y hy
+      apply hPf y hy
+      rcases List.mem_cons.mp hy with rfl | hy'
+      · omega
+      · have := hpx y hy'; omega
+    have h2 : (x :: xs).find? (P (key x)) = some x := by
+      simp [(hP x (by simp) (key x)).mpr rfl]
+    have h3 : (List.range' (key x + 1) (a + n - (key x + 1))).filterMap (fun i => (x :: xs).find? (P i))
+        = (List.range' (key x + 1) (a + n - (key x + 1))).filterMap (fun i => xs.find? (P i)) := by
+      apply filterMap_congr'
+      intro i hi
+      have hi' := List.mem_range'_1.mp hi
+      have : P i x = false := hPf x (by simp) i (by omega)
+      simp [this]
+    rw [h1, h2, h3, ih (key x + 1) (a + n - (key x + 1)) hpxs]
+    · rfl
+    · intro y hy
+      have := hpx y hy
+      have := (hr y (by simp [hy])).2
+      omega
+    · intro y hy; exact hP y (by simp [hy])
+
+def lkey (l : Layer) : Nat := 4 * l.stream.toNat + l.spatial.toNat
+
+theorem tableOrder_flat (layers : List Layer) (c : Nat) :
+    tableOrder c layers = (List.range (4 * c)).filterMap (fun i => slot layers (i / 4) (i % 4)) := by
+  induction c with
+  | zero => simp [tableOrder]
+  | succ c ih =>
+    have e : 4 * (c + 1) = 4 * c + 4 := by omega
+    rw [e, List.range_add, List.filterMap_append, ← ih, List.filterMap_map]
+    unfold tableOrder
+    have hr : List.range (c + 1) = List.range c ++ [c] := List.range_succ
+    rw [hr, List.flatMap_append]
+    congr 1
+    simp only [List.flatMap_cons, List.flatMap_nil, List.append_nil]
+    apply filterMap_congr'
+    intro k hk
+    have hk' : k < 4 := List.mem_range.mp hk
+    have h1 : (4 * c + k) / 4 = c := by omega
+    have h2 : (4 * c + k) % 4 = k := by omega
+    simp [h1, h2]
+
+theorem tableOrder_sorted (layers : List Layer) (count : Int)
+    (hs : layers.Pairwise Layer.before) (hw : ∀ l ∈ layers, l.WF count) :
+    tableOrder count.toNat layers = layers := by
+  rw [tableOrder_flat, List.range_eq_range']
+  unfold slot
+  apply filterMap_find_sorted lkey
+      (fun i l => l.stream == ((i / 4 : Nat) : Int) && l.spatial == ((i % 4 : Nat) : Int))
+  · apply List.Pairwise.imp_of_mem _ hs
+    intro a b ha hb hab
+    have wa := hw a ha; have wb := hw b hb
+    unfold Layer.WF at wa wb; unfold Layer.before at hab; unfold lkey
+    omega
+  · intro l hl
+    have wl := hw l hl
+    unfold Layer.WF at wl; unfold lkey
+    omega
+  · intro l hl i
+    have wl := hw l hl
+    unfold Layer.WF at wl; unfold lkey
+    simp only [Bool.and_eq_true, beq_iff_eq]
+    omega
+
+/-! ### the per-stream bitmasks -/
+
+def bmOf (b0 b1 b2 b3 : Bool) : Nat :=
+  (if b0 then 1 else 0) + (if b1 then 2 else 0) + (if b2 then 4 else 0) + (if b3 then 8 else 0)
+
+theorem bmOf_or : ∀ (b0 b1 b2 b3 : Bool) (k : Fin 4),
+    (bmOf b0 b1 b2 b3).toUInt8 ||| ((1 : UInt8) <<< k.val.toUInt8) =
+      (bmOf (b0 || k.val == 0) (b1 || k.val == 1) (b2 || k.val == 2) (b3 || k.val == 3)).toUInt8 := by
+  decide
+
+theorem bmOf_lt (b0 b1 b2 b3 : Bool) : bmOf b0 b1 b2 b3 < 16 := by
+  unfold bmOf; cases b0 <;> cases b1 <;> cases b2 <;> cases b3 <;> decide
+
+def hit (s k : Nat) (l : Layer) : Bool := l.stream == (s : Int) && l.spatial == (k : Int)
+
+theorem slMB_fold (s : Nat) : ∀ (ls : List Layer), (∀ l ∈ ls, 0 ≤ l.spatial ∧ l.spatial < 4) →
+    ∀ b0 b1 b2 b3 : Bool,
+    ls.foldl (fun a l => if l.stream == (s : Int) then a ||| ((1 : UInt8) <<< l.spatial.toNat.toUInt8) else a)
+        (bmOf b0 b1 b2 b3).toUInt8 =
+      (bmOf (b0 || ls.any (hit s 0)) (b1 || ls.any (hit s 1)) (b2 || ls.any (hit s 2))
+        (b3 || ls.any (hit s 3))).toUInt8 := by
+  intro ls
+  induction ls with
+  | nil => intro _ b0 b1 b2 b3; simp
+  | cons l ls ih =>
+    intro hw b0 b1 b2 b3
+    have hl := hw l (by simp)
+    have hw' : ∀ l ∈ ls, 0 ≤ l.spatial ∧ l.spatial < 4 := fun x hx => hw x (by simp [hx])
+    simp only [List.foldl_cons, List.any_cons]
+    by_cases hs : l.stream = (s : Int)
+    · obtain ⟨k, hk⟩ : ∃ k : Fin 4, l.spatial = (k.val : Int) :=
+        ⟨⟨l.spatial.toNat, by omega⟩, by show l.spatial = ((l.spatial.toNat : Nat) : Int); omega⟩
+      have hkn : l.spatial.toNat = k.val := by omega
+      have hh : ∀ j : Nat, hit s j l = (k.val == j) := by
+        intro j
+        simp only [hit, hs, hk, beq_self_eq_true, Bool.true_and]
+        rw [Bool.eq_iff_iff]
+        simp only [beq_iff_eq]
+        omega
+      simp only [hs, beq_self_eq_true, if_true, hkn, bmOf_or, ih hw', hh, Bool.or_assoc]
+    · have hh : ∀ j : Nat, hit s j l = false := by
+        intro j; simp [hit, hs]
+      have hs' : (l.stream == (s : Int)) = false := by simpa using hs
+      simp only [hs', Bool.false_eq_true, if_false, ih hw', hh, Bool.false_or]
+
+theorem slMB_eq (v : VLA) (s : Nat) (hw : ∀ l ∈ v.layers, 0 ≤ l.spatial ∧ l.spatial < 4) :
+    slMB v.layers s = (bm v s).toUInt8 := by
+  have := slMB_fold s v.layers hw false false false false
+  simpa [slMB, bm, active, bmOf, hit] using this
+
+theorem bm_lt (v : VLA) (s : Nat) : bm v s < 16 := by
+  have := bmOf_lt (active v s 0) (active v s 1) (active v s 2) (active v s 3)
+  simpa [bm, bmOf] using this
+
+/-! ### header byte, shared bitmask, slX_bm bytes -/
+
+theorem nib_pack : ∀ a b : Fin 16,
+    (a.val.toUInt8 <<< 4) ||| b.val.toUInt8 = (16 * a.val + b.val).toUInt8 := by decide
+
+theorem nib_pack1 : ∀ a : Fin 16, (a.val.toUInt8 <<< 4) = (16 * a.val).toUInt8 := by decide
+
+theorem hdr_pack : ∀ (r c : Fin 4) (m : Fin 16),
+    byteOfInt ((r.val : Int) * 64) ||| (byteOfInt (((c.val + 1 : Nat) : Int) - 1) <<< 4) ||| m.val.toUInt8 =
+      (64 * r.val + 16 * c.val + m.val).toUInt8 := by decide
+
+theorem toUInt8_inj_of_lt {a b : Nat} (ha : a < 256) (hb : b < 256) :
+    a.toUInt8 = b.toUInt8 ↔ a = b := by
+  constructor
+  · intro h
+    have := congrArg UInt8.toNat h
+    simp only [Nat.toUInt8, UInt8.toNat_ofNat'] at this
+    omega
+  · intro h; rw [h]
+
+theorem toUInt8_beq_of_lt {a b : Nat} (ha : a < 256) (hb : b < 256) :
+    (a.toUInt8 == b.toUInt8) = (a == b) := by
+  rw [Bool.eq_iff_iff]; simp only [beq_iff_eq]; exact toUInt8_inj_of_lt ha hb
+
+theorem range_1 : List.range 1 = [0] := rfl
+theorem range_2 : List.range 2 = [0, 1] := rfl
+theorem range_3 : List.range 3 = [0, 1, 2] := rfl
+theorem range_4 : List.range 4 = [0, 1, 2, 3] := rfl
+
+theorem commonSLBM_eq (f : Nat → Nat) (hf : ∀ s, f s < 16) (n : Nat) (hn : 1 ≤ n ∧ n ≤ 4) :
+    commonSLBM ((List.range n).map (fun s => (f s).toUInt8)) =
+      (if (List.range n).all (fun s => f s == f 0) then f 0 else 0).toUInt8 := by
+  have e : ∀ a b, ((f a).toUInt8 == (f b).toUInt8) = (f a == f b) := fun a b =>
+    toUInt8_beq_of_lt (by have := hf a; omega) (by have := hf b; omega)
+  have hn' : n = 1 ∨ n = 2 ∨ n = 3 ∨ n = 4 := by omega
+  rcases hn' with rfl | rfl | rfl | rfl
+  · simp [commonSLBM]
+  · simp only [range_2, commonSLBM, List.map_cons, List.map_nil, List.all_cons, List.all_nil, e,
+      beq_self_eq_true, Bool.and_true, Bool.true_and]
+    split <;> rfl
+  · simp only [range_3, commonSLBM, List.map_cons, List.map_nil, List.all_cons, List.all_nil, e,
+      beq_self_eq_true, Bool.and_true, Bool.true_and]
+    split <;> rfl
+  · simp only [range_4, commonSLBM, List.map_cons, List.map_nil, List.all_cons, List.all_nil, e,
+      beq_self_eq_true, Bool.and_true, Bool.true_and]
+    split <;> rfl
+
+theorem maskBytes_eq (f : Nat → Nat) (hf : ∀ s, f s < 16) (n : Nat) (hn : 1 ≤ n ∧ n ≤ 4) :
+    maskBytes ((List.range n).map (fun s => (f s).toUInt8)) = packNibbles ((List.range n).map f) := by
+  have p2 : ∀ a b, ((f a).toUInt8 <<< 4) ||| (f b).toUInt8 = (16 * f a + f b).toUInt8 :=
+    fun a b => nib_pack ⟨f a, hf a⟩ ⟨f b, hf b⟩
+  have p1 : ∀ a, ((f a).toUInt8 <<< 4) = (16 * f a).toUInt8 := fun a => nib_pack1 ⟨f a, hf a⟩
+  have hn' : n = 1 ∨ n = 2 ∨ n = 3 ∨ n = 4 := by omega
+  rcases hn' with rfl | rfl | rfl | rfl
+  · simp only [range_1, List.map_cons, List.map_nil, maskBytes, packNibbles]; rw [p1]
+  · simp only [range_2, List.map_cons, List.map_nil, maskBytes, packNibbles]; rw [p2]
+  · simp only [range_3, List.map_cons, List.map_nil, maskBytes, packNibbles]; rw [p2, p1]
+  · simp only [range_4, List.map_cons, List.map_nil, maskBytes, packNibbles]; rw [p2, p2]
+
+theorem maskBytes_length (l : List UInt8) : (maskBytes l).length = (l.length + 1) / 2 := by
+  match l with
+  | [] => rfl
+  | [_] => simp [maskBytes]
+  | _ :: _ :: r =>
+    have := maskBytes_length r
+    simp only [maskBytes, List.length_cons, this]
+    omega
+
+theorem slBm_lt (v : VLA) : slBm v < 16 := by
+  unfold slBm; split
+  · exact bm_lt v 0
+  · omega
+
+/-- the first part of the body: header byte, shared mask decision, per-stream mask bytes -/
+theorem front_eq (v : VLA) (hc : 1 ≤ v.count ∧ v.count ≤ 4) (hr : 0 ≤ v.rid ∧ v.rid < v.count)
+    (hw : ∀ l ∈ v.layers, 0 ≤ l.spatial ∧ l.spatial < 4) :
+    let masks := (List.range v.count.toNat).map (slMB v.layers)
+    commonSLBM masks = (slBm v).toUInt8 ∧
+    ((commonSLBM masks == 0) = decide (slBm v = 0)) ∧
+    byteOfInt (v.rid * 64) ||| (byteOfInt (v.count - 1) <<< 4) ||| commonSLBM masks = header v ∧
+    maskBytes masks = packNibbles ((List.range (ns v)).map (bm v)) := by
+  intro masks
+  have hm : masks = (List.range v.count.toNat).map (fun s => (bm v s).toUInt8) := by
+    apply List.map_congr_left
+    intro s _
+    exact slMB_eq v s hw
+  have hn : 1 ≤ v.count.toNat ∧ v.count.toNat ≤ 4 := by omega
+  have h1 : commonSLBM masks = (slBm v).toUInt8 := by
+    rw [hm, commonSLBM_eq (bm v) (bm_lt v) _ hn]; rfl
+  refine ⟨h1, ?_, ?_, ?_⟩
+  · rw [h1]
+    have := toUInt8_beq_of_lt (a := slBm v) (b := 0) (by have := slBm_lt v; omega) (by omega)
+    rw [Bool.eq_iff_iff]
+    simp only [decide_eq_true_eq]
+    rw [show (0 : UInt8) = (0 : Nat).toUInt8 from rfl, this]
+    simp
+  · rw [h1]
+    have := hdr_pack ⟨v.rid.toNat, by omega⟩ ⟨v.count.toNat - 1, by omega⟩ ⟨slBm v, slBm_lt v⟩
+    simp only at this
+    have e1 : ((v.rid.toNat : Nat) : Int) = v.rid := by omega
+    have e2 : ((v.count.toNat - 1 + 1 : Nat) : Int) = v.count := by omega
+    rw [e1, e2] at this
+    rw [this]; rfl
+  · rw [hm]; exact maskBytes_eq (bm v) (bm_lt v) _ hn
+
 end Rtp.Model.Vla
